@@ -66,7 +66,7 @@ func vtErrOfFailed(err error, specs []vtMember) bool {
 // Every strategy x n members x every success/failure assignment x every completion order
 // (the scheduler's choice): threshold, result placement, no panic, no leaked goroutine.
 func VT_C17_Execute() {
-	n := vt.Choose("n", vt.Bound("members", 3, 4)+1)
+	n := vt.Choose("n", vt.Bound("members", 3, 3)+1)
 	strategy := ExecutionStrategy(vt.Choose("strategy", 7))
 	members, specs := vtMembers(n)
 	var res []proto.Message
